@@ -399,6 +399,12 @@ PAIRS = [
     ("naming a closed sub-expression",
      'res /n on get -> <{ \'a { \'b num `minimum: 1` } }>;\n',
      'let inner = { \'b num `minimum: 1` };\nres /n on get -> <{ \'a inner }>;\n'),
+    ("inlining a closed recursive sub-expression into a declaration that lies on a definition cycle",
+     "let tree = rec x { 'label str, 'children [x] };\nlet a = { 'tree tree, 'next b };\nlet b = { 'prev a, 'loop b };\nres / on get -> a;\n",
+     "let a = { 'tree (rec x { 'label str, 'children [x] }), 'next b };\nlet b = { 'prev a, 'loop b };\nres / on get -> a;\n"),
+    ("naming a closed recursive sub-expression of a self-referential declaration",
+     "let n = { 'kids (rec k [k]), 'up [n] };\nres /n on get -> <n>;\n",
+     "let kids = rec k [k];\nlet n = { 'kids kids, 'up [n] };\nres /n on get -> <n>;\n"),
     ("permuting declarations",
      'let a = { \'x b };\nlet b = num;\nlet f y = [y];\nres /p on get -> <f a>;\n',
      'let f y = [y];\nlet b = num;\nlet a = { \'x b };\nres /p on get -> <f a>;\n'),
